@@ -19,6 +19,9 @@ pub struct Cache {
     // that instance stays THE instance of the process: a second one loaded from the store
     // next to it would let the two diverge
     live: Arc<Mutex<HashMap<String, Weak<Process>>>>,
+    // loading a process from the store (a lookup that misses, the restore after a process has
+    // ended) is "look, load, insert": two of them at once would build two instances of one process
+    loading: Arc<Mutex<()>>,
     store: Arc<Store>,
 }
 
@@ -37,6 +40,7 @@ impl Cache {
             cap,
             procs: MokaCache::new(cap as u64),
             live: Arc::new(Mutex::new(HashMap::new())),
+            loading: Arc::new(Mutex::new(())),
             store: Arc::new(Store::new()),
         }
     }
@@ -98,6 +102,11 @@ impl Cache {
         match self.get_proc(pid) {
             Some(proc) => Some(proc.clone()),
             None => {
+                let _loading = self.loading.lock().unwrap_or_else(|err| err.into_inner());
+                // somebody else may have loaded it while this lookup waited
+                if let Some(proc) = self.get_proc(pid) {
+                    return Some(proc);
+                }
                 if let Some(proc) = self.live_proc(pid) {
                     // dropped by the LRU while still in use: back into the cache as it is
                     self.procs.insert(pid.to_string(), proc.clone());
@@ -139,6 +148,7 @@ impl Cache {
         }
         if count < check_point {
             let cap = cap - count;
+            let _loading = self.loading.lock().unwrap_or_else(|err| err.into_inner());
             for ref proc in self.store.load(cap, rt)? {
                 if !self.procs.contains_key(proc.id()) {
                     if let Some(live) = self.live_proc(proc.id()) {
